@@ -1,33 +1,126 @@
 mod actors;
+mod check;
 mod codec;
 mod gen;
+mod oracles_dl;
+mod oracles_mgr;
+mod oracles_time;
+mod oracles_wire;
+mod riga;
 mod plan;
 mod run;
+mod shrink;
 mod torrent;
+mod view;
+
+use check::Check;
+use std::io::Write;
+
+fn registry() -> Vec<Box<dyn Check>> {
+    vec![
+        Box::new(oracles_wire::C01),
+        Box::new(oracles_dl::C02),
+        Box::new(oracles_dl::C03),
+        Box::new(oracles_dl::C04),
+        Box::new(oracles_time::C06),
+        Box::new(oracles_wire::C08),
+        Box::new(oracles_wire::C09),
+        Box::new(oracles_wire::C10),
+        Box::new(oracles_wire::C11),
+        Box::new(oracles_mgr::C12),
+        Box::new(oracles_mgr::C13),
+        Box::new(oracles_mgr::C14),
+        Box::new(oracles_dl::C18),
+        Box::new(oracles_time::C19),
+        Box::new(oracles_time::C20),
+    ]
+}
+
+fn find(id: &str) -> Option<Box<dyn Check>> {
+    registry().into_iter().find(|c| c.id() == id)
+}
 
 fn main() {
-    // never let the real progress view reach the terminal
+    // never let the real progress view reach the terminal: fd 1 -> /dev/null, we print via a dup
     let out_fd = unsafe { libc::dup(1) };
     unsafe {
         let devnull = libc::open(b"/dev/null\0".as_ptr() as *const libc::c_char, libc::O_WRONLY);
         libc::dup2(devnull, 1);
     }
     let mut out = unsafe { <std::fs::File as std::os::fd::FromRawFd>::from_raw_fd(out_fd) };
-    use std::io::Write;
     run::install_panic_hook();
     let args: Vec<String> = std::env::args().collect();
-    let profile = args.get(1).cloned().unwrap_or("smoke".into());
-    let seed: u64 = args.get(2).and_then(|s| s.parse().ok()).unwrap_or(0);
-    let plan = gen::generate(&profile, seed).expect("profile");
-    let t = std::time::Instant::now();
-    let r = run::run_plan(&plan);
-    let wall = t.elapsed();
-    for e in r.entries.iter() {
-        let s = e.render();
-        if s.contains("Snapshot") { continue; }
-        writeln!(out, "{}", &s[..s.len().min(300)]).unwrap();
-    }
-    writeln!(out, "end={:?} end_ms={} goal={:?} digest={:016x} events={} wall={:?} panics={:?} err={:?}", r.end, r.end_ms, r.goal_ms, r.digest, r.entries.len(), wall, r.panics, r.harness_error).unwrap();
-    writeln!(out, "stats={:?}", r.stats).unwrap();
-    writeln!(out, "files={:?}", r.files.iter().map(|(k,v)| (k.clone(), v.len())).collect::<Vec<_>>()).unwrap();
+    let verif_dir = std::env::var("VERIF_DIR").unwrap_or_else(|_| "/verif".to_string());
+    let seed: u64 = std::env::var("VERIF_SEED").ok().and_then(|s| s.parse().ok()).unwrap_or(0);
+    let code = match args.get(1).map(|s| s.as_str()) {
+        Some("check") => {
+            let id = args.get(2).cloned().unwrap_or_default();
+            let tier = args.get(3).cloned().or_else(|| std::env::var("VERIF_TIER").ok()).unwrap_or("quick".into());
+            match find(&id) {
+                Some(c) => {
+                    writeln!(out, "VERIF_SEED={} property={} tier={}", seed, id, tier).ok();
+                    check::run_check(c.as_ref(), &tier, seed, &verif_dir, &mut out).exit
+                }
+                None => {
+                    writeln!(out, "unknown property {}", id).ok();
+                    2
+                }
+            }
+        }
+        Some("replay") => {
+            let path = args.get(2).cloned().unwrap_or_default();
+            let id = std::fs::read_to_string(&path)
+                .ok()
+                .and_then(|s| serde_json::from_str::<serde_json::Value>(&s).ok())
+                .and_then(|d| d["property"].as_str().map(|s| s.to_string()))
+                .unwrap_or_default();
+            match find(&id) {
+                Some(c) => check::replay(c.as_ref(), &path, &mut out),
+                None => {
+                    writeln!(out, "replay file names unknown property {:?}", id).ok();
+                    2
+                }
+            }
+        }
+        Some("show") => {
+            // show <profile> <seed> [filter]
+            let profile = args.get(2).cloned().unwrap_or("smoke".into());
+            let s: u64 = args.get(3).and_then(|s| s.parse().ok()).unwrap_or(0);
+            let plan = gen::generate(&profile, s).expect("profile");
+            let t = std::time::Instant::now();
+            let r = run::run_plan(&plan);
+            let wall = t.elapsed();
+            if args.get(4).map(|s| s.as_str()) == Some("plan") {
+                writeln!(out, "{}", serde_json::to_string_pretty(&check::sample_of(&plan)).unwrap()).ok();
+            }
+            for e in r.entries.iter() {
+                let s = e.render();
+                if s.contains("Snapshot") || s.contains("Buffered") || s.contains("PeerRead") || s.contains("ClientRead") {
+                    continue;
+                }
+                writeln!(out, "{}", &s[..s.len().min(260)]).ok();
+            }
+            writeln!(
+                out,
+                "end={:?} end_ms={} goal={:?} digest={:016x} events={} wall={:?} panics={:?} err={:?}",
+                r.end,
+                r.end_ms,
+                r.goal_ms,
+                r.digest,
+                r.entries.len(),
+                wall,
+                r.panics,
+                r.harness_error
+            )
+            .ok();
+            writeln!(out, "stats={:?}", r.stats).ok();
+            0
+        }
+        _ => {
+            writeln!(out, "usage: rdsim check <ID> <quick|thorough> | replay <file> | show <profile> <seed>").ok();
+            2
+        }
+    };
+    out.flush().ok();
+    std::process::exit(code);
 }
